@@ -179,6 +179,69 @@ type tagged[T any] struct{ v T }
 
 func (t tagged[T]) TypeTag() string { return Describe(t.v) }
 
+// Local2 and Local2Tag declare types inside functions with two type parameters: the
+// instances for [A, B] and [B, A] (and for [A, A], [B, B]) are four different types.
+func Local2[A, B any](a A, b B) interface{} {
+	type pair struct {
+		a A
+		b B
+	}
+	return pair{a, b}
+}
+
+type tag2[A any] struct{}
+
+func (tag2[A]) Tag() string {
+	var z A
+	return Describe(z)
+}
+
+func Local2Tag[A, B any]() interface{ Tag() string } {
+	type w struct {
+		tag2[A]
+		b B
+	}
+	return w{}
+}
+
+// SwT switches on the type parameter itself and uses the variable bound by the clause.
+func SwT[T comparable](v interface{}, want T) string {
+	switch x := v.(type) {
+	case T:
+		m := map[T]int{want: 7}
+		if x == want {
+			return "T:same:" + Describe(x) + ":" + Describe(m[x] == 7)
+		}
+		return "T:other:" + Describe(x) + ":" + Describe(m[x] == 7)
+	case []T:
+		if len(x) > 0 && x[0] == want {
+			return "[]T:first"
+		}
+		return "[]T"
+	case *T:
+		if x != nil && *x == want {
+			return "*T:same"
+		}
+		return "*T"
+	case nil:
+		return "nil"
+	}
+	return "no"
+}
+
+type addable interface {
+	~int | ~int8 | ~uint8 | ~float64 | ~string
+}
+
+// SwAdd does arithmetic with the bound variable of a type-parameter clause.
+func SwAdd[T addable](v interface{}, add T) T {
+	switch x := v.(type) {
+	case T:
+		return x + add
+	}
+	return add
+}
+
 func Map[T, U any](xs []T, f func(T) U) []U {
 	var out []U
 	for _, x := range xs {
@@ -263,11 +326,33 @@ func Gen(rt *rapid.T) Program {
 		emit(fmt.Sprintf("%s.Wrap(%s.Own{1}) + base.LocalTagged(%s.Own{}).TypeTag()", name, name, name))
 	}
 	// main-side instantiations
-	n := rapid.IntRange(4, 12).Draw(rt, "ninst")
+	// every probe kind at most once per program, in a drawn order (rapid favours small values,
+	// independent draws would leave the later kinds almost unused)
+	kindOrder := rapid.Permutation([]int{0, 1, 2, 3, 4, 5, 6, 7, 8, 9, 10, 11, 12, 13}).Draw(rt, "kindorder")
+	n := rapid.IntRange(6, 14).Draw(rt, "ninst")
 	for i := 0; i < n; i++ {
 		t := pickT("mainT")
 		p.Instantiation++
-		switch rapid.IntRange(0, 9).Draw(rt, "mainkind") {
+		switch kindOrder[i] {
+		case 10:
+			u := pickT("mainU2")
+			emit(fmt.Sprintf("btoa(base.Local2(%s, %s) == base.Local2(%s, %s)) + btoa(base.Local2(%s, %s) == base.Local2(%s, %s)) + btoa(base.Local2(%s, %s) == base.Local2(%s, %s)) + base.Local2Tag[%s, %s]().Tag() + base.Local2Tag[%s, %s]().Tag() + itoa(len(map[interface{}]int{base.Local2(%s, %s): 1, base.Local2(%s, %s): 2, base.Local2(%s, %s): 3, base.Local2(%s, %s): 4}))",
+				t.valCmp(), u.valCmp(), t.valCmp(), u.valCmp(),
+				t.valCmp(), u.valCmp(), u.valCmp(), t.valCmp(),
+				t.valCmp(), t.valCmp(), u.valCmp(), u.valCmp(),
+				t.expr, u.expr, u.expr, t.expr,
+				t.valCmp(), u.valCmp(), u.valCmp(), t.valCmp(), t.valCmp(), t.valCmp(), u.valCmp(), u.valCmp()))
+			p.Composite = true
+		case 11:
+			emit("base.SwT[int](7, 7) + base.SwT[int](8, 7) + base.SwT[string](\"a\", \"a\") + base.SwT[string](7, \"a\") + base.SwT[float64](1.5, 1.5) + base.SwT[bool](true, false) + base.SwT[base.Named](base.Named(3), 3) + base.SwT[[2]int]([2]int{1, 2}, [2]int{1, 2}) + base.SwT[struct{ a int }](struct{ a int }{1}, struct{ a int }{1}) + base.SwT[int8]([]int8{5}, 5) + base.SwT[int64](int64(1)<<40, int64(1)<<40) + base.SwT[*int](nil, nil)")
+		case 12:
+			emit("itoa(base.SwAdd[int](40, 2)) + \" \" + itoa(int(base.SwAdd[int8](int8(100), 100))) + \" \" + itoa(int(base.SwAdd[uint8](uint8(200), 100))) + \" \" + f64s(base.SwAdd[float64](0.1, 0.2)) + \" \" + base.SwAdd[string](\"ab\", \"cd\") + \" \" + itoa(int(base.SwAdd[base.Named](base.Named(5), 6))) + \" \" + itoa(base.SwAdd[int](\"no\", 9))")
+		case 13:
+			te, tv := t.expr, t.val
+			if !t.cmp {
+				te, tv = "int", "1"
+			}
+			emit(fmt.Sprintf("base.SwT[%s](%s, %s) + base.SwT[%s](interface{}(nil), %s)", te, tv, tv, te, tv))
 		case 0:
 			emit(fmt.Sprintf("base.Name[%s]()", t.expr))
 		case 1:
